@@ -254,7 +254,7 @@ def _mutable_reach(root, stop_ids):
     return seen
 
 
-@harness(["C04", "C03"], "demux.fresh_instances_are_separate", functions=[SE + ".__init__", QS + ".__init__", "tlexport.quic.quic_tls_parser.QuicTlsSession.__init__"],
+@harness(["C04", "C03", "C18"], "demux.fresh_instances_are_separate", functions=[SE + ".__init__", QS + ".__init__", "tlexport.quic.quic_tls_parser.QuicTlsSession.__init__"],
          cases=[("Session",), ("QuicSession",), ("QuicTlsSession",)])
 def h_separate(c, which):
     """SEPARATION: two connections created by the real constructors share no mutable object except the run-wide ones they are
